@@ -415,6 +415,13 @@ class Body:
             return out
         elif op['k'] in ('copy', 'move'):
             local = op['place']['local']
+            pr = op['place']['proj']
+            if pr and pr[0]['k'] == 'field' and pr[0].get('adt') in ('<tuple>', None) and 'idx' in pr[0]:
+                # a field of a tuple built in one place (`let (a, b) = (x, y)`, an argument tuple): only that field's sources
+                ds = self.assigns().get(local, [])
+                if len(ds) == 1 and ds[0][2] == 'stmt' and not ds[0][4] and ds[0][3]['k'] == 'aggregate' and ds[0][3].get('agg') == 'tuple' \
+                        and pr[0]['idx'] < len(ds[0][3]['fields']) and not (1 <= local <= self.arg_count):
+                    return self.origins(ds[0][3]['fields'][pr[0]['idx']], through_calls, _seen, fields, binops)
         else:
             out.add(('other', -1, -1))
             return out
@@ -671,7 +678,11 @@ class Crate:
         if known_names is not None or helper_keys is not None:
             if closure_keys:
                 self.inlined_helpers |= inline_local_closure_calls(self.j, closure_keys)
+                self.inlined_helpers |= model_std_adaptors(self.j, closure_keys)
             self.inlined_helpers |= inline_unknown_helpers(self.j, known_names or set(), helper_keys)
+            for b_ in self.j['bodies']:
+                if b_.get('inlined'):
+                    thread_jumps(b_)
         self.all_bodies = [Body(b, self) for b in self.j['bodies']]
         # helpers that were inlined into their callers are analysed there, not on their own
         # ... except `pub` ones: a new public function is an operation of its own even if another new function calls it
@@ -891,6 +902,27 @@ def _rewrite_upvars(callee, env_local, by_value, captures):
         walk(blk['term'])
 
 
+
+def _snapshot_captures(b, agg):
+    """The captures of a closure are evaluated where the closure is BUILT. Give each captured operand a fresh local assigned right
+    there (once per closure), so that the spliced-in body reads the value of that moment and not what the variable holds at the call
+    (`let f = move |x| use(gen); gen = other; f(1)`)."""
+    if agg.get('_snapped'):
+        return
+    for blk in b['blocks']:
+        for i, st in enumerate(blk['stmts']):
+            if st['k'] == 'assign' and st['rv'] is agg:
+                new = []
+                for fi, f in enumerate(agg['fields']):
+                    if f.get('k') in ('move', 'copy'):
+                        b['locals'].append({'ty': '?'})
+                        sl = len(b['locals']) - 1
+                        new.append({'k': 'assign', 'dest': {'local': sl, 'proj': []}, 'rv': {'k': 'use', 'op': f}, 'span': st['span']})
+                        agg['fields'][fi] = {'k': 'move', 'place': {'local': sl, 'proj': []}}
+                blk['stmts'][i:i] = new
+                agg['_snapped'] = True
+                return
+
 def inline_local_closure_calls(j, closure_keys):
     """A closure the rules have never seen (no counterpart in the reference tree) that is built in a body and called there
     directly (`let f = |x| ..; f(a); f(b)`) is spliced into that body at each call, with its captures resolved to the
@@ -936,6 +968,7 @@ def inline_local_closure_calls(j, closure_keys):
             orig = by_key[agg['closure']]
             if len(orig['blocks']) > 80:
                 continue
+            _snapshot_captures(b, agg)
             for bb in bbs:
                 t = b['blocks'][bb]['term']
                 callee = copy.deepcopy(orig)
@@ -952,6 +985,235 @@ def inline_local_closure_calls(j, closure_keys):
                 _inline_one(b, bb, callee)
             absorbed.add(agg['closure'])
     return absorbed
+
+
+
+# --------------------------------------------------------------------------------------------
+# Models of std combinators for closures the rules have never seen: `x.map(|v| ..)` is spliced in as the match it stands for
+
+_ADAPTORS = {
+    # path: (adt, variant whose payload goes to the closure (name, idx) or None for "no payload / other arm",
+    #        what becomes of the closure's result, what happens on the other variant)
+    'std::result::Result::<T, E>::map':            ('core::result::Result', ('Ok', 0), ('wrap', 'Ok'), ('rewrap', 'Err', 1)),
+    'std::result::Result::<T, E>::map_err':        ('core::result::Result', ('Err', 1), ('wrap', 'Err'), ('rewrap', 'Ok', 0)),
+    'std::result::Result::<T, E>::and_then':       ('core::result::Result', ('Ok', 0), ('plain',), ('rewrap', 'Err', 1)),
+    'std::result::Result::<T, E>::unwrap_or_else': ('core::result::Result', ('Err', 1), ('plain',), ('payload', 'Ok', 0)),
+    'std::option::Option::<T>::map':               ('core::option::Option', ('Some', 1), ('wrap', 'Some'), ('unit', 'None')),
+    'std::option::Option::<T>::and_then':          ('core::option::Option', ('Some', 1), ('plain',), ('unit', 'None')),
+    'std::option::Option::<T>::unwrap_or_else':    ('core::option::Option', ('None', 0), ('plain',), ('payload', 'Some', 1)),
+}
+
+
+def _mk_local(body, ty):
+    body['locals'].append({'ty': ty})
+    return len(body['locals']) - 1
+
+
+def _variant_field(local, proj, adt, vname, vidx, ty='?'):
+    return {'local': local, 'proj': list(proj) + [{'k': 'downcast', 'variant': vname, 'vidx': vidx},
+                                                   {'k': 'field', 'idx': 0, 'name': '0', 'adt': adt, 'variant': vname, 'ty': ty}]}
+
+
+def model_std_adaptors(j, closure_keys):
+    """`x.map(closure)`, `.map_err`, `.and_then`, `.unwrap_or_else` on Option / Result with a closure the rules have never seen (built
+    in the same body): replace the call by `match x { V(v) => W(closure(v)), other => other }` with the closure body spliced in and
+    its captures resolved to the caller's locals. Returns the closures fully absorbed that way."""
+    import copy
+    by_key = {b['key']: b for b in j['bodies']}
+    absorbed = set()
+    for b in j['bodies']:
+        built = {}
+        for blk in b['blocks']:
+            for s in blk['stmts']:
+                if s['k'] == 'assign' and s['rv']['k'] == 'aggregate' and s['rv'].get('agg') == 'closure' and not s['dest']['proj'] \
+                        and s['rv'].get('closure') in closure_keys and s['rv']['closure'] in by_key:
+                    built[s['dest']['local']] = s['rv']
+        if not built:
+            continue
+        uses = defaultdict(int)
+
+        def count(x):
+            if isinstance(x, dict):
+                if 'local' in x and 'proj' in x and x['local'] in built:
+                    uses[x['local']] += 1
+                for v in x.values():
+                    count(v)
+            elif isinstance(x, list):
+                for v in x:
+                    count(v)
+        for blk in b['blocks']:
+            count(blk['stmts'])
+            count(blk['term'])
+        for bb in range(len(b['blocks'])):
+            t = b['blocks'][bb]['term']
+            if t['k'] != 'call' or len(t['args']) != 2:
+                continue
+            spec = _ADAPTORS.get(t['callee'].get('path'))
+            a0, a1 = t['args']
+            if not spec or a1['k'] != 'move' or a1['place']['proj'] or a1['place']['local'] not in built or a0['k'] not in ('move', 'copy'):
+                continue
+            cl = a1['place']['local']
+            if uses[cl] != 2 or t.get('target') is None or len(b['blocks']) > 600:   # the construction and this call
+                continue
+            agg = built[cl]
+            orig = by_key[agg['closure']]
+            if len(orig['blocks']) > 80:
+                continue
+            adt, (vname, vidx), result, other = spec
+            span = t['span']
+            xp = a0['place']
+            nargs = orig.get('arg_count', 1) - 1
+            ret_ty = orig['locals'][0]['ty']
+            disc = _mk_local(b, 'isize')
+            r = _mk_local(b, ret_ty)
+            dest, target, unwind = t['dest'], t['target'], t.get('unwind')
+            base = len(b['blocks'])
+            b_call, b_after, b_other = base, base + 1, base + 2
+            b['blocks'][bb]['stmts'].append({'k': 'assign', 'dest': {'local': disc, 'proj': []}, 'rv': {'k': 'discr', 'place': copy.deepcopy(xp)}, 'span': span})
+            b['blocks'][bb]['term'] = {'k': 'switch', 'discr': {'k': 'move', 'place': {'local': disc, 'proj': []}}, 'discr_ty': 'isize',
+                                       'targets': [[vidx, b_call]], 'otherwise': b_other, 'span': span}
+            cleanup = b['blocks'][bb]['cleanup']
+            # the arm that runs the closure
+            args = [copy.deepcopy(a1)]
+            stmts = []
+            if nargs >= 1:
+                v = _mk_local(b, orig['locals'][2]['ty'] if len(orig['locals']) > 2 else '?')
+                stmts.append({'k': 'assign', 'dest': {'local': v, 'proj': []},
+                              'rv': {'k': 'use', 'op': {'k': 'move', 'place': _variant_field(xp['local'], xp['proj'], adt, vname, vidx, b['locals'][v]['ty'])}}, 'span': span})
+                args.append({'k': 'move', 'place': {'local': v, 'proj': []}})
+            call = {'k': 'call', 'callee': {'key': agg['closure'], 'resolved': agg['closure'], 'name': 'call_once', 'krate': j['crate'], 'pretty': orig['pretty'], 'path': orig['pretty']},
+                    'args': args, 'arg_tys': [], 'dest': {'local': r, 'proj': []}, 'target': b_after, 'unwind': unwind, 'span': span}
+            b['blocks'].append({'cleanup': cleanup, 'stmts': stmts, 'term': call})
+            if result[0] == 'wrap':
+                rv = {'k': 'aggregate', 'agg': 'adt', 'adt': adt, 'variant': result[1], 'args': [], 'field_names': ['0'], 'fields': [{'k': 'move', 'place': {'local': r, 'proj': []}}]}
+            else:
+                rv = {'k': 'use', 'op': {'k': 'move', 'place': {'local': r, 'proj': []}}}
+            b['blocks'].append({'cleanup': cleanup, 'stmts': [{'k': 'assign', 'dest': copy.deepcopy(dest), 'rv': rv, 'span': span}],
+                                'term': {'k': 'goto', 'target': target, 'span': span}})
+            # the other arm
+            if other[0] == 'rewrap':
+                e = _mk_local(b, '?')
+                st2 = [{'k': 'assign', 'dest': {'local': e, 'proj': []}, 'rv': {'k': 'use', 'op': {'k': 'move', 'place': _variant_field(xp['local'], xp['proj'], adt, other[1], other[2])}}, 'span': span},
+                       {'k': 'assign', 'dest': copy.deepcopy(dest), 'rv': {'k': 'aggregate', 'agg': 'adt', 'adt': adt, 'variant': other[1], 'args': [], 'field_names': ['0'],
+                                                                           'fields': [{'k': 'move', 'place': {'local': e, 'proj': []}}]}, 'span': span}]
+            elif other[0] == 'unit':
+                st2 = [{'k': 'assign', 'dest': copy.deepcopy(dest), 'rv': {'k': 'aggregate', 'agg': 'adt', 'adt': adt, 'variant': other[1], 'args': [], 'field_names': [], 'fields': []}, 'span': span}]
+            else:  # payload
+                st2 = [{'k': 'assign', 'dest': copy.deepcopy(dest), 'rv': {'k': 'use', 'op': {'k': 'move', 'place': _variant_field(xp['local'], xp['proj'], adt, other[1], other[2])}}, 'span': span}]
+            b['blocks'].append({'cleanup': cleanup, 'stmts': st2, 'term': {'k': 'goto', 'target': target, 'span': span}})
+            # splice the closure body into the arm
+            callee = copy.deepcopy(orig)
+            by_value = not str(orig['locals'][1]['ty']).lstrip().startswith('&')
+            _snapshot_captures(b, agg)
+            _rewrite_upvars(callee, 1, by_value, agg['fields'])
+            _inline_one(b, b_call, callee)
+            absorbed.add(agg['closure'])
+    return absorbed
+
+
+_VIDX = {('core::option::Option', 'None'): 0, ('core::option::Option', 'Some'): 1, ('core::result::Result', 'Ok'): 0, ('core::result::Result', 'Err'): 1,
+         ('core::ops::control_flow::ControlFlow', 'Continue'): 0, ('core::ops::control_flow::ControlFlow', 'Break'): 1}
+
+
+def thread_jumps(body, max_rounds=6):
+    """Jump threading on a body JSON (used only where something was spliced in): a block that gives a plain local a constant or a
+    known enum variant and then runs, through straight-line blocks without calls, into a switch on exactly that (the spliced-in
+    helper `return Ok(true)` followed by the caller's `match`), is connected to the arm the switch will take. The straight-line blocks
+    in between are copied for that edge. Nothing else changes; the number of calls / atomic sites stays the same."""
+    import copy
+    blocks = body['blocks']
+
+    def ev_stmt(env, s):
+        if s['k'] != 'assign' or s['dest']['proj']:
+            if s['k'] in ('assign', 'setdiscr'):
+                env.pop(s['dest']['local'], None)
+            return
+        L, rv = s['dest']['local'], s['rv']
+        val = None
+        if rv['k'] == 'use':
+            o = rv['op']
+            if o['k'] == 'const' and isinstance(o.get('c'), dict) and 'int' in o['c']:
+                val = ('int', o['c']['int'])
+            elif o['k'] in ('copy', 'move'):
+                pl = o['place']
+                src = env.get(pl['local'])
+                if not pl['proj']:
+                    val = src
+                elif src and src[0] == 'agg' and len(pl['proj']) == 2 and pl['proj'][0]['k'] == 'downcast' and pl['proj'][1]['k'] == 'field' \
+                        and pl['proj'][0].get('vidx') == src[1] and pl['proj'][1]['idx'] < len(src[2]):
+                    val = src[2][pl['proj'][1]['idx']]
+        elif rv['k'] == 'aggregate' and rv.get('agg') == 'adt' and (rv.get('adt'), rv.get('variant')) in _VIDX:
+            fs = []
+            for f in rv['fields']:
+                if f['k'] == 'const' and isinstance(f.get('c'), dict) and 'int' in f['c']:
+                    fs.append(('int', f['c']['int']))
+                elif f['k'] in ('copy', 'move') and not f['place']['proj']:
+                    fs.append(env.get(f['place']['local']))
+                else:
+                    fs.append(None)
+            val = ('agg', _VIDX[(rv['adt'], rv['variant'])], fs)
+        elif rv['k'] == 'discr' and not rv['place']['proj']:
+            src = env.get(rv['place']['local'])
+            if src and src[0] == 'agg':
+                val = ('int', src[1])
+        if val is None:
+            env.pop(L, None)
+        else:
+            env[L] = val
+
+    changed_any = False
+    for _ in range(max_rounds):
+        changed = False
+        n0 = len(blocks)
+        for p in range(n0):
+            t = blocks[p]['term']
+            if t['k'] != 'goto' or blocks[p]['cleanup']:
+                continue
+            env = {}
+            for s in blocks[p]['stmts']:
+                ev_stmt(env, s)
+            if not env:
+                continue
+            chain = []
+            x = t['target']
+            decided = None
+            while len(chain) < 5 and x not in chain and x != p:
+                chain.append(x)
+                for s in blocks[x]['stmts']:
+                    ev_stmt(env, s)
+                tx = blocks[x]['term']
+                if tx['k'] == 'goto':
+                    x = tx['target']
+                    continue
+                if tx['k'] == 'switch' and tx['discr']['k'] in ('copy', 'move'):
+                    pl = tx['discr']['place']
+                    v = env.get(pl['local'])
+                    if pl['proj']:
+                        if v and v[0] == 'agg' and len(pl['proj']) == 2 and pl['proj'][0]['k'] == 'downcast' and pl['proj'][1]['k'] == 'field' \
+                                and pl['proj'][0].get('vidx') == v[1] and pl['proj'][1]['idx'] < len(v[2]):
+                            v = v[2][pl['proj'][1]['idx']]
+                        else:
+                            v = None
+                    if v and v[0] == 'int':
+                        tg = [y for (val, y) in tx['targets'] if val == v[1]]
+                        decided = tg[0] if tg else tx['otherwise']
+                break
+            if decided is None:
+                continue
+            # copy the chain for this edge
+            base = len(blocks)
+            for i, c in enumerate(chain):
+                nb = copy.deepcopy(blocks[c])
+                nb['term'] = {'k': 'goto', 'target': base + i + 1 if i + 1 < len(chain) else decided, 'span': blocks[c]['term']['span']}
+                blocks.append(nb)
+            t['target'] = base
+            changed = True
+            changed_any = True
+            if len(blocks) > 1500:
+                return changed_any
+        if not changed:
+            break
+    return changed_any
 
 
 def inline_unknown_helpers(j, known_names, helper_keys=None, max_rounds=3):
